@@ -131,13 +131,18 @@ def words(T, style, has_ditto, depth, r, sample=None):
 
 
 def check(ctx):
-    ctx.rule = ('model: event machine over a virtual clock (Timer.start/stop/run_func/is_running, one poll of the timer thread, in-order drain of the process worker, IRCode release callbacks: '
-                'decoder.reset by identity, dispatcher reset by equality guarded by is_running, user callback; decoder same-object / toggle-replaces styles); correspondence: the REAL classes driven event by '
-                'event (clock patched, worker threads stopped, their loop bodies executed by the harness) vs the model after every event (outputs, held objects, timer queue, armed timers); '
-                'search: all event words up to depth 4 (quick, sampled above 400 per protocol) / 6 (thorough) over {frame A, frame B, toggled A, ditto frame, advance 0.5 T, advance 1.5 T} for NEC (ditto), Sony12 and '
+    ctx.rule = ('proof (same-object decoders: NEC, Sony, JVC, Samsung, ...): for EVERY event word over {full frame of any key, ditto frame, clock advance with poll, clock tick without poll, poll} the event machine '
+                'satisfies Timer.Inv, hence C12_at_most_once (no code object released twice), C12_release_after_delivery, C12_exactly_once (after a silence of 1.2 x timeout every delivered code has been released '
+                'exactly once, superseded keys included) and C12_held (after any history: while frames of the held key arrive closer than the padded timeout it is never released and every full or ditto frame '
+                'is reported with its code object); the toggle style (RC5) violates the property in the code and in the model (kernel-evaluated witness; known finding). '
+                'model: Timer.start/stop/run_func/is_running, one poll of the timer thread, in-order drain of the process worker, IRCode release callbacks (decoder.reset by identity, dispatcher reset by equality '
+                'guarded by is_running, user callback); correspondence: the REAL classes driven event by '
+                'event (clock patched, worker threads stopped, their loop bodies executed by the harness) vs the model after every event (outputs, held objects, timer queue, armed timers) - this is also what ties '
+                'each real protocol to the decoder style its theorems assume; '
+                'search: all event words up to depth 4 (quick, sampled above 400 per protocol) / 6 (thorough) over {frame A, frame B, toggled A, ditto frame, advance 0.5 T, advance 1.5 T, tick 1.5 T, poll} for NEC (ditto), Sony12 and '
                 'Samsung20 (full-frame repeat), JVC (headerless repeat), RC5 (toggle), each closed by a long advance; oracle: no release while frames arrive closer than T, exactly one release per press after '
                 'silence, none afterwards, superseded key released once. distinct = (protocol, word)')
-    ctx.level = 'model_checking'
+    ctx.level = 'proof'
     vlib.prove(ctx, MODULES)
     vlib.repo_import()
     import realenv
